@@ -522,11 +522,12 @@ func run(c *vc.Ctx) {
 			slowest, slowestCase = d, k.String()
 		}
 		if v.OK {
-			c.Outcome(sec, "accepted")
 			c.Distinct(k.String())
-			if !v.ChainOK {
+			if v.ChainOK {
+				c.Outcome(sec, "accepted")
+			} else {
 				chainOdd++
-				c.Outcome(sec, "accepted-but-chain-not-[DS,CSCA]")
+				c.Outcome(sec, "accepted(reported chain is not [DS, expected anchor]; informational)")
 			}
 			if i%97 == 0 {
 				c.Sample(map[string]any{"case": k, "result": "Success"})
